@@ -169,14 +169,16 @@ theorem filterMap_charOf (s : List Char) :
     have h1 : charOf? (Arg.con (charAtom c)) = some c := rfl
     simp only [List.map_cons, List.filterMap_cons, h1, ih]
 
+theorem codeOf_code (c : Char) : codeOf? (Arg.con (codeAtomic c)) = some c := by
+  show (if validScalar (c.toNat : Int) then some (Char.ofNat (c.toNat : Int).toNat) else none) = some c
+  rw [if_pos (validScalar_toNat c), Int.toNat_natCast, Char.ofNat_toNat]
+
 theorem filterMap_codeOf (s : List Char) :
     (s.map fun c => Arg.con (codeAtomic c)).filterMap codeOf? = s := by
   induction s with
-  | nil => rfl
+  | nil => simp
   | cons c cs ih =>
-    have h1 : codeOf? (Arg.con (codeAtomic c)) = some c := by
-      simp [codeOf?, codeAtomic, validScalar_toNat]
-    simp only [List.map_cons, List.filterMap_cons, h1, ih]
+    simp only [List.map_cons, List.filterMap_cons, codeOf_code, ih]
 
 theorem all_ground_con {α : Type} (s : List α) (f : α → Atomic) :
     (s.map fun c => Arg.con (f c)).all Arg.ground = true := by
